@@ -335,7 +335,9 @@ def header_items(rng, join, ncols_a, ncols_b, A_NAMES=A_NAMES, B_NAMES=B_NAMES):
     if nm != '':
         pool += ['a[%s]' % qast.lit(nm, '"'), 'a[%s]' % qast.lit(nm, "'")]
     pool += ['*', 'a.*', 'NR', 'NF', 'a1 + a2', 'f(a1, a2)', 'f(a1, [a2, 1])', 'f("x, y", a1)', '[a1, a2]', 'f(a1)[0]', "'lit'", '"li,t"', '1',
-             'a1 * (2 + 3)', 'f(g(a1, a2), "a)b")', 'f({"k": a1})', "f('a(b', a2)", 'f(a1,a2,[1,[2,3]])', 'a1 == a2', 'f(a1 )', ' a2']
+             'a1 * (2 + 3)', 'f(g(a1, a2), "a)b")', 'f({"k": a1})', "f('a(b', a2)", 'f(a1,a2,[1,[2,3]])', 'a1 == a2', 'f(a1 )', ' a2',
+             # commas inside curly braces (a dictionary / object literal, valid in both host languages) do not separate columns
+             '{"x": a1, "y": a2}', 'f({"k": a1, "l": [a2, 1]}, a2)', '[{"p": 1, "q": 2}, a1]', '{"n": {"m": a1, "o": 2}, "r": 3}', '({"u": a1, "v": a2})']
     if join:
         pool += ['b%d' % rng.randrange(1, ncols_b + 2), 'b[%d]' % rng.randrange(1, ncols_b + 2), 'b.*', 'bNR', 'f(a1, b1)']
         if idents_b:
